@@ -1,5 +1,5 @@
 #!/usr/bin/env python3
-# usage: mkwave.py <suffix-letter>  - prepares /tmp/mut/<Cxx><suffix> worktrees and prompts for a wave of seeded-change agents.
+# usage: mkwave.py <suffix-letter> [flavours.json] [Cxx,Cyy,...]  - prepares /tmp/mut/<Cxx><suffix> worktrees and prompts for a wave of seeded-change agents.
 # The prompt contains only the property text, earlier contributors' bug ideas (for variety) and a variety hint - nothing about /verif's checks.
 import json,subprocess,os,glob,sys
 suffix=sys.argv[1]
@@ -36,7 +36,8 @@ Deliverables, all in {out}/ :
 Before finishing, leave {wt} with your source change applied and confirm `go test -count=1 ./...` passes there WITHOUT your demonstration file present (move the demonstration only to {out}). Your final message should briefly state what the change is, what it needs to manifest, and confirm the checks you ran.
 '''
 os.makedirs('/tmp/mut',exist_ok=True)
-for pid in ['C01','C02','C03','C04','C06','C12','C13','C14','C15','C16','C17','C18','C20']:
+ALL=['C01','C02','C03','C04','C06','C12','C13','C14','C15','C16','C17','C18','C20']
+for pid in (sys.argv[3].split(',') if len(sys.argv)>3 else ALL):
     wid=pid+suffix
     p=props[pid]
     subprocess.run(['git','-C','/repo','worktree','add','-q','--detach',f'/tmp/mut/{wid}','HEAD'],check=True)
